@@ -273,16 +273,16 @@ class Side:
         init = repo.func(svc_rel, "Service.__init__")
         self.init = init
         self.loader_reads = []
-        for st in ast.walk(init.node):
-            if isinstance(st, ast.If) and any(isinstance(c, ast.Call) and (dotted(c.func) or "").endswith("." + predicate_name)
-                                               for c in ast.walk(st.test)):
-                for s in st.body:
-                    for c in ast.walk(s):
-                        if isinstance(c, ast.Call):
-                            d = dotted(c.func) or ""
-                            nm = d.split(".")[-1]
-                            if d.startswith("FileManager.") and nm.startswith("read_") and nm in self.fm.functions:
-                                self.loader_reads.append((nm, c))
+        br = F.predicate_branches(init, predicate_name)
+        for s in (br[0] if br is not None else []):
+            if isinstance(s, (ast.If, ast.For, ast.While, ast.With, ast.Try)):
+                continue    # compound statements: their simple statements are listed themselves
+            for c in ast.walk(s):
+                if isinstance(c, ast.Call):
+                    d = dotted(c.func) or ""
+                    nm = d.split(".")[-1]
+                    if d.startswith("FileManager.") and nm.startswith("read_") and nm in self.fm.functions:
+                        self.loader_reads.append((nm, c))
         self.read_target = {}
         for name, fn in self.fm.functions.items():
             if name.startswith("read_"):
@@ -319,7 +319,7 @@ def handler_sequences(repo, fi, scanner, initial_value, value_of_store):
             if n.stmt is None or n.ast is None:
                 continue
             for e in scanner.node_effects(fi, n):
-                nv = value_of_store(e, val)
+                nv = value_of_store(e, val, fi, nid)
                 if nv is not None:
                     val = nv
                 if e.kind == "fm" and not e.name.startswith(("read_", "check_")):
@@ -438,7 +438,7 @@ def check(repo):
     table, _ = F.dispatch_table(repo, F.SRV)
     mt = F.msg_types(repo)
 
-    def srv_store(e, val):
+    def srv_store(e, val, fi=None, nid=None):
         if e.kind == "item_store" and e.info.get("base") == "service_meta" and e.info.get("key") == "state":
             return e.info.get("const")
         return None
@@ -446,16 +446,34 @@ def check(repo):
     svc_c = repo.cls(F.CLI, "Service")
 
     def cli_store_factory():
-        def cli_store(e, val):
+        qs = {}
+
+        def cli_store(e, val, fi=None, nid=None):
             if e.kind == "call" and e.name.endswith("set_current_service_state"):
-                # which flag: look at the argument
+                # which flag: the derivation of the stored value contains ClientServiceState.set_<flag>(<...>, True)
+                # (looked up through temporaries, so `new_state = ...set_x(...); self.set_current_service_state(new_state)` counts)
                 call = e.node
+                found = None
                 for c in ast.walk(call):
                     if isinstance(c, ast.Call):
                         d = dotted(c.func) or ""
                         if ".set_" in d and d.split(".")[-2] == "ClientServiceState" and len(c.args) == 2 and \
                                 isinstance(c.args[1], ast.Constant) and c.args[1].value is True:
-                            return frozenset(set(val) | {d.split(".")[-1][4:]})
+                            found = d.split(".")[-1][4:]
+                if found is None and fi is not None and nid is not None and call.args and not e.chain:
+                    from ..query import Q
+                    from ..terms import walk as twalk
+                    q = qs.get(fi.key) or qs.setdefault(fi.key, Q(repo, fi))
+                    try:
+                        t = q.arg(call, nid, 0)
+                    except Exception:
+                        t = None
+                    for x in twalk(t) if t is not None else []:
+                        if isinstance(x, tuple) and x and x[0] == "call" and isinstance(x[1], str) and ".set_" in x[1] and \
+                                x[1].split("::")[-1].split(".")[0] == "ClientServiceState" and len(x[2]) == 2 and x[2][1] == ("const", True):
+                            found = x[1].split(".")[-1][4:]
+                if found is not None:
+                    return frozenset(set(val) | {found})
             return None
         return cli_store
     cli_handlers = [("create-config", svc_c.methods.get("handle_create_config"), frozenset(), frozenset({"config_created"})),
